@@ -335,11 +335,15 @@ def class_change(ctx, P, iters):
                     n += 1
                     tok = e.d["target"][: -len(".customer_class")]
                     src = e.d["value"]
-                    nxt = [x for x in evs[i + 1:] if x.d["target"] == tok + ".priority_class"]
+                    after = [x for x in evs[i + 1:] if x.d["target"] == tok + ".priority_class"]
+                    anyw = [x for x in evs if x.d["target"] == tok + ".priority_class"]
                     okk = False
-                    if nxt:
-                        v = nxt[0].d["value"].replace(" ", "")
-                        okk = v in ("self.simulation.network.priority_class_mapping[%s.customer_class]" % tok, "self.simulation.network.priority_class_mapping[%s]" % src.replace(" ", ""))
+                    # priority from the new class: read back from customer_class (must come after the write) or computed from the same source expression (order free)
+                    if after and after[0].d["value"].replace(" ", "") == "self.simulation.network.priority_class_mapping[%s.customer_class]" % tok:
+                        okk = True
+                    if anyw and anyw[-1].d["value"].replace(" ", "") == "self.simulation.network.priority_class_mapping[%s]" % src.replace(" ", "") and "random_choice" not in src:
+                        okk = True
+                    nxt = after or anyw
                     ob.ok("%s.%s:%s" % (cls.name, m, tok), "%s.%s: %s ; %s" % (view.name, m, e.text[:50], nxt[0].text[:80] if nxt else "-"))
                     if not okk:
                         ctx.violation(ob, "R2.priority-remap", "%s.%s" % (cls.name, m), e.text.split("(")[0][:80], "priority-not-remapped",
